@@ -40,6 +40,22 @@ def box_key(b):
             _data_key(getattr(b, "data", None)))
 
 
+def snapshot(v):
+    """Everything observable about a value (class, types, boxes with payloads and stored arrays,
+    offsets; terms of a sum), as plain data -- taken before an operation and compared after it:
+    an operation returns a new value and leaves its operands as they were."""
+    from discopy import cat, monoidal
+    if isinstance(v, cat.Sum):
+        return ("Sum", type(v).__name__, tuple(snapshot(t) for t in v.terms))
+    if isinstance(v, monoidal.Diagram):
+        extra = tuple(_data_key(getattr(b, "_array", None)) for b in v.boxes)
+        return (type(v).__name__, diagram_key(v), extra)
+    if isinstance(v, cat.Arrow):
+        return (type(v).__name__, repr(v.dom), repr(v.cod),
+                tuple((str(b.name), repr(b.dom), repr(b.cod), bool(b.is_dagger), _data_key(b.data)) for b in v.boxes))
+    return repr(v)
+
+
 def bname(b):
     return str(getattr(b, "name", "<diagram>"))
 
